@@ -123,6 +123,46 @@ static void run_c01(void)
         sample_add("%s encrypt key=%s block=%s (published vector background of the families)",
                    VNAME[vi], hexs(key, (size_t)c.klen), hexs(pt, (size_t)c.bs));
     }
+    /* Re-use of one schedule object: every ordered pair (and a few triples) of key lengths on the same
+     * Skinny128Key_t / Skinny64Key_t - longer after shorter, shorter after longer, the in-between sizes -
+     * with related and unrelated key bytes; the result must be the specification's for the LAST key. */
+    if (g_opts.shard == 0) {
+        static const int L128[] = {16, 32, 48, 24, 40, 17, 47}, L64[] = {8, 16, 24, 12, 20, 9, 23};
+        int bsi, a, b, c3, rel, dir2;
+        for (bsi = 0; bsi < 2; ++bsi) for (a = 0; a < 7; ++a) for (b = 0; b < 7; ++b) for (c3 = -1; c3 < 7; c3 += 4) for (rel = 0; rel < 3; ++rel) for (dir2 = 0; dir2 < 2; ++dir2) {
+            const int *L = bsi ? L64 : L128; int bs = bsi ? 8 : 16, lens[3], nl = 0, i2, okk = 1;
+            uint8_t k[3][48], blk[16], real[16], want[16], padded[48]; char cd[120];
+            Skinny128Key_t s128; Skinny64Key_t s64;
+            lens[nl++] = L[a]; lens[nl++] = L[b]; if (c3 >= 0) lens[nl++] = L[c3];
+            for (i2 = 0; i2 < nl; ++i2) {
+                if (rel == 0) lcg_fill(k[i2], 48, 3100 + (uint32_t)i2);                       /* unrelated keys */
+                else if (rel == 1) { lcg_fill(k[i2], 48, 3100); }                            /* the same bytes, another length */
+                else { lcg_fill(k[i2], 48, 3100); memset(k[i2] + L[a], 0, (size_t)(48 - L[a])); }   /* the first key followed by zeros */
+            }
+            lcg_fill(blk, 16, 3200 + (uint32_t)(a * 7 + b));
+            verif_paint_obj(&s128, sizeof(s128)); verif_paint_obj(&s64, sizeof(s64)); verif_paint_stack();
+            for (i2 = 0; i2 < nl; ++i2) {
+                const uint8_t *kp = isolated_key(k[i2], lens[i2]);
+                okk &= bsi ? skinny64_set_key(&s64, kp, (unsigned)lens[i2]) : skinny128_set_key(&s128, kp, (unsigned)lens[i2]);
+            }
+            if (bsi) { if (dir2) skinny64_ecb_decrypt(real, blk, &s64); else skinny64_ecb_encrypt(real, blk, &s64); }
+            else { if (dir2) skinny128_ecb_decrypt(real, blk, &s128); else skinny128_ecb_encrypt(real, blk, &s128); }
+            {   /* the specification for the last key, zero-padded to its primary size */
+                int ll = lens[nl - 1], prim = ll <= bs ? bs : (ll <= 2 * bs ? 2 * bs : 3 * bs);
+                memset(padded, 0, sizeof(padded)); memcpy(padded, k[nl - 1], (size_t)ll);
+                if (dir2) ref_skinny_key_decrypt(bs, padded, prim, blk, want); else ref_skinny_key_encrypt(bs, padded, prim, blk, want);
+            }
+            ++g_cnt.evaluations;
+            snprintf(cd, sizeof(cd), "c01rekey %d %d %d %d %d %d", bsi, a, b, c3, rel, dir2);
+            distinct_add_u64(fnv1a(cd, strlen(cd), 101));
+            if (!okk || memcmp(real, want, (size_t)bs) != 0) {
+                char sg[96]; snprintf(sg, sizeof(sg), "C01/skinny%d/re-keyed-schedule-object/%s", bs * 8, dir2 ? "decrypt" : "encrypt");
+                violation(sg, "", "set_key with lengths %d, %d%s%.0d on one object (%s keys), then %s: got %s, specification for the last key %s (set_key ok=%d)",
+                          lens[0], lens[1], nl > 2 ? ", " : "", nl > 2 ? lens[2] : 0, rel == 0 ? "unrelated" : (rel == 1 ? "same bytes, other length" : "first key followed by zeros"),
+                          dir2 ? "decrypt" : "encrypt", hexs(real, (size_t)bs), hexs(want, (size_t)bs), okk);
+            }
+        }
+    }
 }
 
 /* ------------------------------------------------------------------ C02 */
